@@ -3,7 +3,7 @@
 # then quick seed 1 last (so the committed evidence/*.json is what the quick command writes). Three lanes run side by
 # side; the timing-sensitive checks (watchdogs, limits, schedules) share one lane so they never overlap each other.
 # Log: out/final_sweep.log, one line per run; "ALLDONE" at the end.
-cd /verif; LOG=out/final_sweep.log; mkdir -p out; : > $LOG
+cd "$(dirname "$(readlink -f "$0")")/.."; LOG=out/final_sweep.log; mkdir -p out; : > $LOG
 L1="C06 C07 C14 C15 C17 C13 C05"
 L2="C01 C02 C03 C04 C08 C09 C10"
 L3="C11 C12 C16 C18 C19 C20"
@@ -13,7 +13,9 @@ run() { # tier seed id
   if [ $rc -ne 0 ]; then echo "$out" | grep -E "VIOLATION|HARNESS|broken" | head -5 >> $LOG; fi
 }
 lane() { for p in $2; do run $1 $3 $p; done; }
-for pass in "thorough 1" "quick 2" "quick 1"; do
+# SWEEP_PASSES="thorough 1;quick 2" selects passes (default: all three)
+IFS=";" read -ra PASSES <<< "${SWEEP_PASSES:-thorough 1;quick 2;quick 1}"
+for pass in "${PASSES[@]}"; do
   set -- $pass
   lane $1 "$L1" $2 & lane $1 "$L2" $2 & lane $1 "$L3" $2 & wait
   echo "PASS-DONE $1 seed=$2" >> $LOG
